@@ -17,7 +17,7 @@ use crate::{
     },
     refimpl::{Grp, Proof},
     runner::{guarded, setup, sub, CaseLog, PropertyDef, RunCtx, Sub, Tier, INCONCLUSIVE},
-    tapx::{challenges, tapped},
+    tapx::{challenges, tapped, tapped_prover},
 };
 
 #[derive(Clone, Debug, Serialize, Deserialize)]
@@ -246,7 +246,7 @@ pub fn oracle<E: Engine>(_ctx: &RunCtx, spec: &FsSpec, log: &mut CaseLog) -> Res
     let t = Triple::<E>::build(&spec.base)?;
     let cfg = t.cfg;
     // prover side, base run
-    let (proof, pev) = tapped(|| guarded(|| t.prove()));
+    let (proof, pev) = tapped_prover(|| guarded(|| t.prove()));
     let proof = setup(proof, "the prover refused or panicked on a valid witness (C01's subject)")?;
     let prover_base = challenges(&pev);
     let bytes = proof.to_bytes();
@@ -393,7 +393,7 @@ pub fn oracle<E: Engine>(_ctx: &RunCtx, spec: &FsSpec, log: &mut CaseLog) -> Res
                     let ok_witness = ps.promises.iter().zip(t.values.iter()).all(|(pp, v)| pp.unwrap_or(0) <= *v);
                     if ok_witness {
                         let stp = ps.statement(t.seed)?;
-                        let (r2, ev2) = tapped(|| guarded(|| E::prove(&mut ps.ctx.transcript(), &stp, &t.w, &mut spec.base.rng.make())));
+                        let (r2, ev2) = tapped_prover(|| guarded(|| E::prove(&mut ps.ctx.transcript(), &stp, &t.w, &mut spec.base.rng.make())));
                         let r2 = r2?.map_err(|e| format!("prover refused after perturbing {}: {:?}", p.name, e))?;
                         let got = challenges(&ev2);
                         for i in 0..got.len().min(prover_base.len()) {
@@ -457,7 +457,7 @@ pub fn oracle<E: Engine>(_ctx: &RunCtx, spec: &FsSpec, log: &mut CaseLog) -> Res
                 .collect(),
         )
         .map_err(crate::runner::skip_err)?;
-        let (r2, ev2) = tapped(|| guarded(|| E::prove(&mut t.transcript(), &st2, &w2, &mut spec.base.rng.make())));
+        let (r2, ev2) = tapped_prover(|| guarded(|| E::prove(&mut t.transcript(), &st2, &w2, &mut spec.base.rng.make())));
         r2?.map_err(|e| format!("prover refused after changing commitment {}: {:?}", j, e))?;
         let got = challenges(&ev2);
         for i in 0..got.len().min(prover_base.len()) {
